@@ -15,9 +15,13 @@ NOT_DECIDED = ("a CR at the very end of a buffer followed by LF in the next rece
 
 
 def check(ctx):
+    respondent_tracks_event_source(ctx)
+    _http.driver_resumes_every_call(ctx, "T2-driver")
     ctx.rule("T9-eol", "chosen end of line = minimum index over all eols")
     ctx.rule("T6-eols", "EventSource.parseEvents reads lines with all three line endings")
     for fname in ("parseLine", "parseLeader"):
+        if fname != "parseLine" and _http.delegates_to_parseLine(ctx, fname):
+            continue
         f, h, ok, why = _http.eol_selection(ctx, fname)
         ctx.check(ok, "T9-eol", h.ast, "%s selects the earliest end of line" % fname,
                   "%s: with mixed line endings a CR-terminated line followed later by CRLF is read as one line containing the CR" % why)
@@ -103,3 +107,28 @@ def split_crlf(ctx):
     ctx.check(ok, "T9-crlf", dels[0].ast, "parseEvents: `%s` set after a line ended by a trailing CR; next receive: drop a leading LF, clear the flag on any byte" % flag,
               "the look-ahead state is wrong: a LF is dropped when it should not be (flag left set after other bytes arrived) or an empty "
               "line is read for the LF half of a split CRLF")
+
+
+def respondent_tracks_event_source(ctx):
+    """what a client sees of retry / last event id is the Respondent's copy: after every eventSource.parse() it is brought up to
+    the event source's value whenever that differs - whether or not that parse call happened to dispatch an event"""
+    from ..rules import path_condition, formula_implies_f, formula_of, FuncView as _FV
+    ctx.rule("T2-sync", "Respondent.parseBody: after each eventSource.parse(), self.retry / self.leid are copied from the event source "
+             "under no condition but `<es>.x is not None and self.x != <es>.x`")
+    f = ctx.cls("http.clienting", "Respondent").own_method("parseBody")
+    V = _FV(ctx, f)
+    ps = V.need(V.call_nodes("self.eventSource.parse"), "self.eventSource.parse() in Respondent.parseBody")
+    ok = True
+    for p in ps:
+        after = V.cfg.reachable([b for b, _ in V.cfg.succ[p.id]], removed_nodes=[q.id for q in ps])
+        for attr in ("retry", "leid"):
+            st = [n for n in V.stores("self." + attr) if n.id in after and isinstance(n.ast, ast.Assign)
+                  and src(V.sym(n.ast.value, n)) == "self.eventSource." + attr]
+            # the store belonging to this parse call: the first one reached
+            st = [n for n in st if not any(m.id != n.id and n.id in V.cfg.reachable(m.id) and m.id not in V.cfg.reachable(n.id) for m in st)]
+            cond = formula_of("self.eventSource.%s is not None and self.%s != self.eventSource.%s" % (attr, attr, attr))
+            good = bool(st) and all(formula_implies_f(cond, path_condition(V, n, start=[b for b, _ in V.cfg.succ[p.id]])) for n in st)
+            ok = ok and good
+    ctx.check(ok, "T2-sync", f, "Respondent.retry / .leid follow the event source after every parse call",
+              "an `id:` or `retry:` line that arrives in a receive which completes no event still changes the stream's last event id / "
+              "retry: if the copy is made only when an event was dispatched, the value depends on where the bytes were split")
